@@ -116,7 +116,8 @@ if isinstance(operand, Symbol):
     # Parser.regex / Parser.literal: case-insensitive unless asked otherwise
     cls = find_class(tree, "Parser")
     rx = find_def(cls, "regex")
-    dump_eq(rx.body[0], "regex = re.compile(regex, flags=0 if case_sensitive else re.I)", "Parser.regex: flags")
+    # re.ASCII: [a-z] under re.I matches the 52 ASCII letters only; \\d \\s \\b \\w are ASCII-only (Model/Spelling.v relies on it)
+    dump_eq(rx.body[0], "regex = re.compile(regex, flags=0 if case_sensitive else re.I | re.ASCII)", "Parser.regex: flags")
     need([d.value if isinstance(d, ast.Constant) else None for d in rx.args.defaults] == [True, False], "Parser.regex: defaults")
     lit = find_def(cls, "literal")
     need([d.value if isinstance(d, ast.Constant) else None for d in lit.args.defaults] == [True, False], "Parser.literal: defaults")
